@@ -220,7 +220,8 @@ func (h *harness) streamHistory(n, maxSteps int) {
 				switch kind {
 				case "registers-observer":
 					if len(children) == 0 {
-						ch := &obsTarget{name: "child-of-" + t.name, when: "from-a-callback", registered: true, light: true}
+						ch := &obsTarget{id: nextID, name: "child-of-" + t.name, when: "from-a-callback", registered: true, light: true}
+						nextID++
 						children = append(children, ch)
 						childSince[ch] = round
 						observer.Add(ch.name, ch)
@@ -394,8 +395,15 @@ func (h *harness) streamHistory(n, maxSteps int) {
 				h.rep.Fail("correspondence", "reload:decision", "reload decision / notification count differs from the model",
 					map[string]interface{}{"history": hs, "impl_notified": cnt, "model": got})
 			}})
+			// a target registered from inside a callback during this round: the model is told how often it was
+			// visited in this very round (0 or 1 — unspecified); from now on it is an ordinary target
+			for _, ch := range children {
+				if childSince[ch] == thisRound {
+					add(check{line: fmt.Sprintf("OX %s %d %d", encStr(ch.name), ch.id, ch.count), want: "ok"})
+				}
+			}
 			// per-target call counts as the model has them
-			ts := append([]*obsTarget{}, targets...)
+			ts := append(append([]*obsTarget{}, targets...), children...)
 			sort.Slice(ts, func(a, b int) bool { return ts[a].id < ts[b].id })
 			var cs []string
 			for _, t := range ts {
